@@ -61,6 +61,32 @@ def _spec_tn93(vs, alpha):
     return dict(total=tot, p=diffs, dist=dist, w=(w1, w2, w3))
 
 
+def _tn93_float(m, alpha):
+    """Tamura & Nei 1993 on floats, from the state names (independent of the code's index tables); None when undefined"""
+    import math
+
+    idx = {a: i for i, a in enumerate(alpha)}
+    T = "T" if "T" in idx else "U"
+    tot = m.sum()
+    f = {a: (m[idx[a]].sum() + m[:, idx[a]].sum()) / (2 * tot) for a in alpha}
+    gR, gY = f["A"] + f["G"], f["C"] + f[T]
+    if min(f.values()) <= 0:
+        return "skip"
+    P1 = (m[idx["A"], idx["G"]] + m[idx["G"], idx["A"]]) / tot
+    P2 = (m[idx["C"], idx[T]] + m[idx[T], idx["C"]]) / tot
+    diffs = (tot - sum(m[i, i] for i in range(4))) / tot
+    Q = diffs - P1 - P2
+    k1 = 2 * f["A"] * f["G"] / gR
+    k2 = 2 * f[T] * f["C"] / gY
+    k3 = 2 * (gR * gY - f["A"] * f["G"] * gY / gR - f[T] * f["C"] * gR / gY)
+    w1 = 1 - P1 / k1 - Q / (2 * gR)
+    w2 = 1 - P2 / k2 - Q / (2 * gY)
+    w3 = 1 - Q / (2 * gR * gY)
+    if w1 <= 0 or w2 <= 0 or w3 <= 0:
+        return None
+    return -k1 * math.log(w1) - k2 * math.log(w2) - k3 * math.log(w3)
+
+
 def _atom_diff(t):
     """normalise an arithmetic atom to (kind, D) meaning D <= 0 / D < 0 / D == 0"""
     k = t.decl().kind()
@@ -116,7 +142,7 @@ def mk_estimator(which, _replay=None):
             elif which == "jc69":
                 want = None if p >= 0.75 else -0.75 * math.log(1 - 4 * p / 3)
             else:
-                want = "skip"
+                want = _tn93_float(mat, alpha)
             if want != "skip":
                 if (want is None) != (got[2] is None) or (want is not None and abs(got[2] - want) > 1e-9 * max(1, abs(want))):
                     bad.append(f"dist {got[2]} != formula {want}")
